@@ -102,7 +102,12 @@ def gen_case(case):
         cfg["clip_to_viewbox"] = False
     mode = r.random()
     meta = {"fmt": fmt}
-    if mode < 0.07:
+    if mode < 0.05:
+        svgs = svggen.same_body_other_viewbox_set(r, r.randint(2, 4), pal=pal)
+        if tol in (0.0, -1):
+            cfg["reuse_tolerance"] = 0.1
+        meta.update(mode="same-body-other-viewbox")
+    elif mode < 0.1:
         svgs = svggen.paint_varied_reuse_set(r, r.randint(1, 3), defaults=True)
         if tol in (0.0, -1):
             cfg["reuse_tolerance"] = 0.1
